@@ -2,7 +2,7 @@
 import ast
 
 from ..core import AnalysisError, norm_stmt
-from ..rules import (Fn, guards, guard_dominates, names_in, strings_in, kwarg, is_none_test, inventory,
+from ..rules import (subscript_stores, Fn, guards, guard_dominates, names_in, strings_in, kwarg, is_none_test, inventory,
                      enclosing_tries, handler_catches, handler_types, always_raises, raised_types,
                      assigned_names, exc_class, loop_nodes)
 from ..cfg import CFG, ReachingDefs, target_names, root_name
@@ -343,7 +343,9 @@ def fault_table(cx):
             if g is not None:
                 fn.ob('EXC', inst + ' (raised as the row-level error)', raises_row(g.body), g, key='raises|' + inst[:40])
     # no standard curve for the channel: the transformation call converts ValueError
-    tc = [c for c in fn.calls(root=t) if isinstance(c.func, ast.Subscript) and dotted(c.func.value) == 'mef_transform_fxns']
+    from ..rules import expand_temps_ast
+    tc = [c for c in fn.calls(root=t) if isinstance(expand_temps_ast(fn, c.func), ast.Subscript)
+          and dotted(expand_temps_ast(fn, c.func).value) == 'mef_transform_fxns']
     ok = len(tc) == 1
     if ok:
         tt = enclosing_tries(fn, fn.cfg.stmt_of(tc[0]))
@@ -354,12 +356,27 @@ def fault_table(cx):
     return fb, fs
 
 
+def _lowered(fn, test):
+    """Copy of a test in which a temporary defined as `<x>.lower()` is written out (one level)."""
+    import copy as _copy
+    tdefs = fn.temp_defs()
+
+    class T(ast.NodeTransformer):
+        def visit_Name(self, n):
+            v = tdefs.get(n.id) if isinstance(n.ctx, ast.Load) else None
+            if isinstance(v, ast.Call) and isinstance(v.func, ast.Attribute) and v.func.attr == 'lower' and not v.args:
+                return _copy.deepcopy(v)
+            return n
+    return T().visit(_copy.deepcopy(test))
+
+
 def units_dispatch(cx):
     """The units chain compares one case-folded value, covers exactly the documented spellings and
     ends in a raising else; each unit maps to the documented conversion calls."""
     fn = Fn(cx, SAMPLES)
     lp, rid, row, tr = row_loop(cx, fn)
-    chains = [s for s in fn.stmts(ast.If, tr) if 'lower' in ast.unparse(s.test) and not (
+    from ..rules import expand_temps_ast as _eta
+    chains = [s for s in fn.stmts(ast.If, tr) if 'lower' in ast.unparse(_lowered(fn, s.test)) and not (
         isinstance(fn.parent.get(id(s)), ast.If) and s in fn.parent[id(s)].orelse)]
     cx.need(len(chains) == 1, SAMPLES + ': units dispatch chain not found')
     c = chains[0]
@@ -375,7 +392,9 @@ def units_dispatch(cx):
     spell = {}
     folded = None
     okshape = True
+    from ..rules import expand_temps_ast
     for t, body in branches:
+        t = _lowered(fn, t)                # `u = units.lower()` may sit in a temporary
         parts = t.values if isinstance(t, ast.BoolOp) and isinstance(t.op, ast.Or) else [t]
         vals = []
         for p in parts:
@@ -418,9 +437,10 @@ def units_dispatch(cx):
             for x in ast.walk(s):
                 if isinstance(x, ast.Assign) and isinstance(x.value, ast.Call):
                     d0 = dotted(x.value.func)
+                    fx = expand_temps_ast(fn, x.value.func)        # the row's function may sit in a temporary
                     if d0 == 'FlowCal.transform.to_rfi':
                         out.append(('to_rfi', x))
-                    elif isinstance(x.value.func, ast.Subscript) and dotted(x.value.func.value) == 'mef_transform_fxns':
+                    elif isinstance(fx, ast.Subscript) and dotted(fx.value) == 'mef_transform_fxns':
                         out.append(('mef', x))
         return out
     # loop channel variable
@@ -502,6 +522,16 @@ def union_discipline(cx, qual, dict_param):
                 a_t, a_f = fn.cfg.assume[id(g)]
                 if fn.cfg.dominates(a_f, fn.node(u)) and fn.cfg.node_of(g).id != fn.node(u).id:
                     ok = True
+        if not ok:
+            # the test may be one conjunct of a larger one (`if not isinstance(..) and pd.notnull(..):`): look at the
+            # literals of the conditions under which the use runs
+            from ..rules import run_context, _abstract
+            st_u = fn.cfg.stmt_of(u)
+            ctx_u = set(run_context(fn, st_u, None, resolved=False) or [])
+            run_context(fn, st_u, None)          # makes sure the set of local names exists
+            for tnf in tests:
+                if 'unless ' + sym.show(_abstract(tuple(tnf), {}, fn._local_names)) in ctx_u:
+                    ok = True
         n += 1
         fn.ob('UNION', 'a row result is used as a sample only where it is known not to be a row error', ok, u,
               detail='' if ok else '`%s` may be an %s here' % (norm_stmt(u), ROWEXC), key='union|' + norm_stmt(fn.cfg.stmt_of(u))[:80])
@@ -526,8 +556,13 @@ def error_rows_rendered(cx, qual, dict_param):
         ('acquisition time column', "%s['Acquisition Time (s)'] = ACQ" % tbl),
     ], ['R', 'NOTES', 'NEV', 'ACQ'])
     # statistics loops skip error rows
-    skips = [s for s in fn.stmts(ast.If) if isinstance(s.body[0], ast.Continue) and 'isinstance' in ast.unparse(s.test)]
-    fn.ob('UNION', 'the statistics loop skips error rows (their statistics stay empty)', len(skips) >= 1, skips[0] if skips else fn.ast,
+    # statistics are written (table.at[row, ...] = statistic) only for rows that are not error rows
+    from ..rules import run_context, _abstract
+    stores = [st for st, t in subscript_stores(fn) if isinstance(t.value, ast.Attribute) and t.value.attr == 'at' and dotted(t.value.value) == tbl]
+    run_context(fn, fn.ast.body[0], None)
+    lit = 'unless ' + sym.show(_abstract(sym.norm('isinstance(%s[R], %s)' % (dict_param, ROWEXC)), {}, fn._local_names | {'R'}))
+    bad = [st for st in stores if 'Analysis Notes' not in ast.unparse(st.targets[0]) and lit not in (run_context(fn, st, None, resolved=False) or [])]
+    fn.ob('UNION', 'the statistics loop skips error rows (their statistics stay empty)', bool(stores) and not bad, bad[0] if bad else fn.ast,
           key='skip-errors')
     return fn
 
@@ -592,9 +627,11 @@ def samples_pipeline(cx):
                     continue
                 # dispatch conversions of a single fluorescence channel
                 v = st.value
+                from ..rules import expand_temps_ast
+                vf = expand_temps_ast(fn, v.func) if isinstance(v, ast.Call) else None     # the row's function may sit in a temporary
                 if t.id == S and isinstance(v, ast.Call) and (
                         (dotted(v.func) == 'FlowCal.transform.to_rfi' and len(v.args) == 2 and dotted(v.args[0]) == S) or
-                        (isinstance(v.func, ast.Subscript) and dotted(v.func.value) == 'mef_transform_fxns' and dotted(v.args[0]) == S)):
+                        (isinstance(vf, ast.Subscript) and dotted(vf.value) == 'mef_transform_fxns' and dotted(v.args[0]) == S)):
                     continue
                 extra.append(st)
     fn.ob('PIPE', 'the sample is only ever replaced by the output of a documented stage', not extra, extra[0] if extra else lp,
